@@ -559,7 +559,15 @@ pub fn run_seq(sc: &SeqScenario) -> Outcome {
             probe(&pool);
         }
     }
-    tasks.clear();
+    {
+        // whatever the clean-up of an already failed history triggers is not reported
+        let saved = w(|w| w.viol.clone());
+        let failed = !saved.is_empty();
+        tasks.clear();
+        if failed {
+            w(|w| w.viol = saved);
+        }
+    }
     let obs = w(|w| {
         let mut h = std::collections::hash_map::DefaultHasher::new();
         for g in &w.gets {
